@@ -284,6 +284,8 @@ type cluster struct {
 	hookHits map[string]int
 
 	led *ledgers
+	deciding   map[string]bool    // oracles that decide the property under check (nil: all)
+	incidental map[string]*failure // first failure per non-deciding oracle/key
 	failure *failure
 	failMu  sync.Mutex
 
@@ -295,6 +297,7 @@ type cluster struct {
 	wireQ   []*wireMsg
 	timeoutNows []timeoutNowRec
 	probe       *pendingTask
+	snapSeen    map[string]bool
 	respInStep       map[uint64]int // responses written per node in the current step (under simNet.mu)
 	deliveryStep     bool // current step only releases bytes while the network is gated (no timer can fire)
 	healthy          map[uint64]bool // C17: nodes inside the healed majority (nil = all)
@@ -346,6 +349,7 @@ func newCluster(seed int64) *cluster {
 		hookHits: map[string]int{},
 		mons:     map[int]*streamMon{},
 		respInStep: map[uint64]int{},
+		snapSeen: map[string]bool{},
 		nextCmd:  1,
 		shutdownOnRemove: true,
 	}
@@ -394,6 +398,18 @@ func (c *cluster) tracef(format string, a ...interface{}) {
 func (c *cluster) fail(oracle, key, format string, a ...interface{}) {
 	c.failMu.Lock()
 	defer c.failMu.Unlock()
+	if c.deciding != nil && !c.deciding[oracle] {
+		// an oracle that does not decide the property being checked: remember the
+		// first occurrence per key and keep going, so that it cannot hide a
+		// violation of the property itself further down the same case
+		if c.incidental == nil {
+			c.incidental = map[string]*failure{}
+		}
+		if _, ok := c.incidental[oracle+"/"+key]; !ok && len(c.incidental) < 8 {
+			c.incidental[oracle+"/"+key] = &failure{Oracle: oracle, Key: key, Msg: fmt.Sprintf(format, a...)}
+		}
+		return
+	}
 	if c.failure == nil {
 		step := 0
 		if !c.blackbox {
@@ -994,7 +1010,19 @@ func (c *cluster) onWireWrite(h *half, b []byte) {
 		m.emit = func(w *wireMsg) { c.onWireMsg(m, w) }
 		c.mons[h.conn.id] = m
 	}
+	if rawTrace && c.traceOn {
+		c.tracef("  raw %s dir=%d %d bytes %x", h.conn, h.dir, len(b), b[:minInt(len(b), 40)])
+	}
 	m.feed(h.dir, b)
+}
+
+var rawTrace = os.Getenv("VERIF_TRACE_RAW") != ""
+
+func minInt(a, b int) int {
+	if a < b {
+		return a
+	}
+	return b
 }
 
 // ---------------------------------------------------------------- timers
@@ -1069,29 +1097,56 @@ func taskDone(t Task) bool {
 }
 
 // onSnapshotStored runs right after a snapshot's meta file was renamed into
-// place (taken locally or installed), on the goroutine that did it.
+// place (taken locally or installed), on the goroutine that did it. Another
+// sink of the same node may publish or retire snapshots at the same moment
+// (local snapshot vs installation), so every label found on disk is looked at
+// and files that vanish meanwhile (retention) are skipped, not judged.
 func (c *cluster) onSnapshotStored(inc *incarnation) {
 	snapDir := filepath.Join(inc.dir, "snapshots")
-	idx := latestSnapOnDisk(inc.dir)
-	if idx == 0 {
-		return
-	}
-	meta, err := readMeta(snapDir, idx)
-	if err != nil {
-		c.fail("snapshot-label", "meta-unreadable", "node %d: snapshot meta %d unreadable right after it was published: %v", inc.id, idx, err)
-		return
-	}
-	var ids []uint64
-	if b, err := ioutil.ReadFile(filepath.Join(snapDir, fmt.Sprintf("%d.snap", idx))); err == nil {
-		ids = make([]uint64, len(b)/8)
+	metas, _ := filepath.Glob(filepath.Join(snapDir, "*.meta"))
+	for _, mp := range metas {
+		var idx uint64
+		if _, err := fmt.Sscanf(filepath.Base(mp), "%d.meta", &idx); err != nil || idx == 0 {
+			continue
+		}
+		c.evMu.Lock()
+		key := fmt.Sprintf("%d/%d/%d", inc.id, inc.inc, idx)
+		seen := c.snapSeen[key]
+		c.snapSeen[key] = true
+		c.evMu.Unlock()
+		if seen {
+			continue
+		}
+		meta, err := readMeta(snapDir, idx)
+		if err != nil {
+			if _, serr := os.Stat(mp); serr != nil {
+				continue // retired meanwhile
+			}
+			c.fail("snapshot-label", "meta-unreadable", "node %d: snapshot meta %d does not decode: %v", inc.id, idx, err)
+			continue
+		}
+		if meta.index != idx {
+			c.fail("snapshot-label", "label-index", "node %d: file %d.meta carries the label of snapshot %d", inc.id, idx, meta.index)
+			continue
+		}
+		b, err := ioutil.ReadFile(filepath.Join(snapDir, fmt.Sprintf("%d.snap", idx)))
+		if err != nil {
+			continue // retired meanwhile
+		}
+		if int64(len(b)) != meta.size {
+			if _, serr := os.Stat(mp); serr != nil {
+				continue
+			}
+			c.fail("snapshot-label", "snapshot-size", "node %d: snapshot %d has %d bytes, label says %d", inc.id, idx, len(b), meta.size)
+			continue
+		}
+		ids := make([]uint64, len(b)/8)
 		for i := range ids {
 			ids[i] = binary.LittleEndian.Uint64(b[8*i:])
 		}
-		if int64(len(b)) != meta.size {
-			c.fail("snapshot-label", "snapshot-size", "node %d: snapshot %d has %d bytes, label says %d", inc.id, idx, len(b), meta.size)
-		}
+		m := meta
+		c.pushEvent(event{kind: "snapshot", nid: inc.id, inc: inc.inc, meta: &m, ids: ids})
 	}
-	c.pushEvent(event{kind: "snapshot", nid: inc.id, inc: inc.inc, meta: &meta, ids: ids})
 }
 
 func dumpStacks(tag string) {
